@@ -6,6 +6,7 @@ CHECKS="${*:-C01 C02 C03 C04 C05 C06 C07 C08 C09 C10 C11 C12 C13 C14 C15 C16 C17
 HERE="$(cd "$(dirname "$0")/.." && pwd)"
 for d in "$HERE"/selftest/equivalent/*.diff; do
   name=$(basename "$d" .diff)
+  if [ -n "$EQUIV_ONLY" ]; then case "$name" in $EQUIV_ONLY) ;; *) continue ;; esac; fi
   W=$(mktemp -d /tmp/equiv_XXXXXX)
   cp -r "$SRC/Geometry3D" "$SRC/docs" "$SRC/unit_tests" "$W/" 2>/dev/null
   (cd "$W" && git init -q . && git apply "$d") || { echo "EQUIV $name: patch does not apply"; rm -rf "$W"; continue; }
